@@ -50,6 +50,15 @@ Proof.
   intros text p pd perm cs q t H. destruct (accepted_text_nested text p H) as [N S]. exact (navigation_exact p pd perm cs text q t S N).
 Qed.
 
+(* a position lying in SEVERAL targets - the end of one token is the start of the next, `[$a$b]`, and a
+   range includes both its ends -: the answers are those of one of these targets (no two targets share a
+   range: `distinct_ranges`, computable, evaluated on every error-free document of a run) *)
+Theorem C19_navigation_at_shared_positions : forall p pd perm cs txt q,
+  tree_safe p = true -> nested p = true -> distinct_ranges p = true -> check_program p pd perm = Ok cs -> at_pos p q <> [] ->
+  exists t, In t (at_pos p q)
+            /\ handle_hover (mkdoc txt p cs) q = Ok (hover_of t) /\ handle_definition (mkdoc txt p cs) q = Ok (definition_of t).
+Proof. exact navigation_some. Qed.
+
 (* "other positions yield nothing": no assumption on the ranges *)
 Theorem C19_navigation_nothing_elsewhere : forall p pd perm cs txt q,
   tree_safe p = true -> check_program p pd perm = Ok cs -> at_pos p q = [] ->
@@ -64,6 +73,7 @@ Proof. exact check_program_resolutions. Qed.
 Print Assumptions C19_docstore_refinement.
 Print Assumptions C19_navigation_exact.
 Print Assumptions C19_navigation_of_accepted_text.
+Print Assumptions C19_navigation_at_shared_positions.
 Print Assumptions C19_navigation_nothing_elsewhere.
 Print Assumptions C19_resolutions_exact.
 Print Assumptions C19_server_refines_spec.
@@ -96,3 +106,19 @@ Example C19_navigation_example :
   | _ => False
   end.
 Proof. vm_compute. repeat split; try reflexivity. eexists. repeat split; reflexivity. Qed.
+
+(* non-vacuity of C19_navigation_at_shared_positions: in `[$a$b]` the position (1,7) is the end of `$a`
+   and the start of `$b`; it lies in two targets and the answer is that of the second *)
+Example C19_shared_position_example :
+  let nl := String (Coq.Strings.Ascii.ascii_of_nat 10) EmptyString in
+  match parse_text (cp ("vars { asset $a number $b }" ++ nl ++ "send [$a$b] (source=@a destination=@b)")) with
+  | Parsed p =>
+      tree_safe p = true /\ nested p = true /\ distinct_ranges p = true /\
+      match check_default p [] with
+      | Ok cs => List.length (at_pos p (mkpos 1 8)) = 2%nat
+                 /\ handle_hover (mkdoc [] p cs) (mkpos 1 8) = Ok (Some (AVarHover (R 1 8 1 10) "b" "number"))
+      | _ => False
+      end
+  | _ => False
+  end.
+Proof. vm_compute. repeat split; reflexivity. Qed.
